@@ -91,6 +91,8 @@ def _tags_chunk(args):
             except CompositeParserException as e:
                 first = e.errors[0]
                 got2 = ("fault", first.location.get("column")) if "tag may not contain whitespace" in str(first) and first.location["line"] == 2 else ("other", str(first))
+            except Exception as e:  # noqa: BLE001
+                got2 = ("exception", type(e).__name__)
             if got2 != exp:
                 bad.append(dict(line=line, spec=exp, impl=got2, via="Parser.parse", doc=doc, cause="tags"))
     return bad
